@@ -115,6 +115,8 @@ def gen_let(w, r, cfg):
         # a swap x->y, y->x
         pairs[1] = [pairs[0][1], pairs[0][0]]
     how = r.choice(['let', 'let', 'direct', 'fmeth'])
+    if kind == 'name' and how == 'direct' and r.random() < 0.5:
+        how = 'module'
     return dict(op='let', kind=kind, how=how, a=_ri(r), pairs=pairs,
                 keep=r.random() < cfg['keep_rate'],
                 cm=[r.choice([0, 0, 0, 1, 2]) for _ in pairs] if (kind == 'fn' and r.random() < 0.4) else None,
@@ -290,9 +292,14 @@ def next_instruction(w, r, cfg):
             ins['m'] = 1
         return ins
     k = prng.weighted(r, table)
-    return GEN[k](w, r, cfg)
+    ins = GEN[k](w, r, cfg)
+    if cfg.get('alloc_rate') and ins['op'] in ALLOC_OPS and r.random() < cfg['alloc_rate']:
+        # F-alloc: the manager is full after about this many more nodes
+        ins['alloc'] = r.choice([0, 0, 1, 1, 2, 3, 5, 8])
+    return ins
 
 
+ALLOC_OPS = {'apply', 'ite', 'fop', 'quant', 'let', 'cube', 'find_or_add', 'add_expr', 'var'}
 SWEEP_FINAL_OPS = ['apply', 'ite', 'quant', 'let', 'cube', 'var', 'add_expr', 'copy', 'image', 'find_or_add',
                    'fop', 'reorder', 'swap', 'pairs', 'to_expr', 'load', 'probe']
 
